@@ -1828,3 +1828,83 @@ def run_summaryorder(chk, F, rid="R-SUMMARYORDER"):
            "still empty, so `forall (p : Child) (p.h() > 0)` with a writing h passes the side-effect gate" %
            (first_static, first_dyn), "%s:%s" % (acc["file"], first_static),
            sample="dynamic templates (line %s) are visited before the static ones (line %s)" % (first_dyn, first_static))
+
+
+# ---------------------------------------------------------------------------------------------- R-BINDERRANGE
+def run_binderrange(chk, F, rid="R-BINDERRANGE"):
+    """forall / exists / sum over a range: the range lives in the *type of the bound symbol*, which is no operand of the node.
+    A collector that walks operands only does not see what the bounds read (found by a defect-hunt sub-agent, E13-2:
+    `int a[sum (i : int[0,n]) 1]` with a free process parameter n was accepted - the restricted-parameter mechanism has no
+    second look at the binder type as the computability gate has)."""
+    from ..inline import KindSlicer, expanded_fn
+    chk.rule(rid, "for every quantifier kind whose binder is typed by the model (expr_forall_begin and the callbacks that share "
+                  "it: FORALL, EXISTS, SUM), the clause of expression_t::collect_possible_reads also collects what the type of "
+                  "the bound symbol reads: it hands get(0).get_symbol().get_type() to a walk that reaches the bounds of ranges")
+    bk = binder_kinds(F)
+    static = sorted(k for k, cb in bk.items() if "dynamic" not in cb and not k.startswith("MITL"))
+    if not {"FORALL", "EXISTS", "SUM"} <= set(static):
+        raise AnalysisBroken("static binder kinds not found (%s)" % static)
+    fn = F.fn("UTAP::expression_t::collect_possible_reads")
+    sl = KindSlicer(F, fn, subject="this", stop=("collect_possible_reads",))
+    for K in static:
+        body = sl.slice(K)
+        reads_type = False
+        for c in calls(body):
+            if c.get("name") == "get_type" and c.get("cls") == "UTAP::symbol_t":
+                reads_type = True
+        ranges = any(c.get("name") == "get_range" for c in calls(body)) or any(
+            any(x.get("name") == "get_range" for x in calls(t.get("body")))
+            for c in calls(body) for t in F.fns(c.get("fn") or "") if t.get("body") is not None and not t.get("cls"))
+        chk.ob(rid, "collect_possible_reads|%s" % K, reads_type and ranges,
+               "expression_t::collect_possible_reads does not look at the range of the variable bound by %s (the type of "
+               "get(0).get_symbol()): `int a[%s (i : int[0,n]) 1]` depends on n without reading it, so a free process "
+               "parameter in the range of a binder is not restricted" % (K, K.lower()), "%s:%s" % (fn["file"], fn["line"]),
+               sample="%s: the reads of the binder's range are collected" % K)
+
+
+# ---------------------------------------------------------------------------------------------- R-EARLYDEPENDS
+def run_earlydepends(chk, F, rid="R-EARLYDEPENDS"):
+    """The builders mark restricted template parameters while the model is *parsed*: collectDependencies follows the reads
+    of an array size / scalar-set size / instantiation argument, and for a call it adds function_t::depends.  That set was
+    computed only by the type checker, after the whole document had been built, so a call contributed nothing (found by a
+    defect-hunt sub-agent, E13-1: `int f() { return n; } int a[f()+1];` with a free process parameter n was accepted).
+    Second clause: the range of an iteration variable is in the type of the variable, not in an expression of the statement."""
+    chk.rule(rid, "function_t::depends is filled when the function is complete (StatementBuilder::decl_func_end runs a "
+                  "CollectDependenciesVisitor over the body and removes only the function's own variables and parameters), "
+                  "because the builders consult it through collect_possible_reads before type checking; and the visitor "
+                  "also collects what the range of an iteration variable reads")
+    # premise: a builder-side consumer exists
+    consumers = [f for f in F.functions.values() if f.get("name") == "collectDependencies" and f.get("body") is not None and
+                 any(c.get("name") == "collect_possible_reads" for c in calls(f["body"]))]
+    if not consumers:
+        raise AnalysisBroken("R-EARLYDEPENDS: no builder-side collectDependencies found")
+    de = F.resolve_method("UTAP::StatementBuilder", "decl_func_end")
+    if de is None or de.get("body") is None:
+        raise AnalysisBroken("StatementBuilder::decl_func_end not found")
+    de = G.normalized(de)
+    ctor = [x for x in walk(de["body"]) if x.get("k") in ("construct", "decl") and "CollectDependenciesVisitor" in short(x) and
+            "depends" in short(x)]
+    accepted = any(c.get("name") == "accept" and "body" in short(c.get("recv")) for c in calls(de["body"]))
+    erases = [c for c in calls(de["body"]) if c.get("name") == "erase" and "depends" in short(c.get("recv"))]
+    own = all(("uid" in short(c["args"][0]) or "frame" in short(c["args"][0]) or "get_frame" in short(c["args"][0]))
+              for c in erases if c.get("args"))
+    chk.ob(rid, "decl_func_end|depends", bool(ctor) and accepted and len(erases) >= 2 and own,
+           "StatementBuilder::decl_func_end does not compute function_t::depends: the builders' collectDependencies (%s) adds the "
+           "depends of a called function while the model is parsed, when it is still empty - a free process parameter reaches an "
+           "array size through a function unnoticed" % ", ".join(sorted({f["q"].replace("UTAP::", "") for f in consumers})),
+           "%s:%s" % (de["file"], de["line"]), sample="depends is computed in decl_func_end, own variables and parameters removed")
+    vis = [f for f in F.fns("UTAP::CollectDependenciesVisitor::visitIterationStatement") if f.get("body") is not None]
+    ok = False
+    for f in vis:
+        f2 = expanded_fn(f, F, accept=lambda t: bool(t.get("static")) and not t.get("cls"), maxdepth=2)
+        reads_type = any(c.get("name") == "get_type" and "symbol" in short(c.get("recv")) for c in calls(f2["body"]))
+        ranges = any(c.get("name") == "get_range" for c in calls(f2["body"])) or any(
+            any(x.get("name") == "get_range" for x in calls(t.get("body")))
+            for c in calls(f["body"]) for t in F.fns(c.get("fn") or "") if t.get("body") is not None and not t.get("cls"))
+        body_visited = any(c.get("name") == "accept" for c in calls(f["body"]))
+        ok = reads_type and ranges and body_visited
+    chk.ob(rid, "CollectDependenciesVisitor|iteration range", ok,
+           "CollectDependenciesVisitor does not collect what the range of an iteration variable reads (`for (i : int[0,n])`): "
+           "the range is held by the type of the variable, no expression of the statement mentions it, so a function that reads "
+           "a variable only there does not depend on it", "src/statement.cpp",
+           sample="visitIterationStatement collects the reads of the variable's range and visits the body")
